@@ -158,6 +158,28 @@ def global_effects(m, cut=()):
                     wnodes.add(id(root))
                     if kind != "=":
                         rd.add(gk)
+        # a static-storage variable whose address is handed to a callee through a pointer-to-non-const
+        # parameter may be written there (conservative)
+        for c in walk(f.body):
+            if c["kind"] != "CallExpr" or (callee_ref(c) or "").startswith("__atomic"):
+                continue
+            cf = m.funcs.get(m.resolve(f.unit, callee_ref(c))) if callee_ref(c) else None
+            for i, a in enumerate(kids(c)[1:]):
+                a0 = strip(a, casts=True)
+                if a0["kind"] == "UnaryOperator" and a0.get("opcode") == "&":
+                    root = strip(kids(a0)[0], casts=True)
+                    while root["kind"] in ("MemberExpr", "ArraySubscriptExpr") and not root.get("isArrow") and kids(root):
+                        root = strip(kids(root)[0], casts=True)
+                    if root["kind"] == "DeclRefExpr" and root.get("ref", {}).get("kind") == "VarDecl":
+                        gk = m.global_key(f.unit, f, root["ref"])
+                        if not gk:
+                            continue
+                        pt = None
+                        if cf is not None and i < len(cf.params):
+                            pt = cf.params[i].get("type") or ""
+                        if pt is None or not pt.strip().startswith("const "):
+                            wr.add(gk)
+                            wnodes.add(id(root))
         for n in walk(f.body):
             if n["kind"] == "DeclRefExpr" and n.get("ref", {}).get("kind") == "VarDecl" and id(n) not in wnodes:
                 gk = m.global_key(f.unit, f, n["ref"])
